@@ -306,6 +306,9 @@ def run(ctx):
         ('C03-negated-group-dotted-alternative', "globmatch('..', '!(.a)', EXTGLOB|DOTGLOB) is True (with `!(a)` it is False: the guard against `.`/`..` is left out when the list names something dotted)",
          lambda: Gm.globmatch('..', '!(.a)', flags=Gm.EXTGLOB | Gm.DOTGLOB | Gm.FORCEUNIX) is True and Gm.globmatch('..', '!(a)', flags=Gm.EXTGLOB | Gm.DOTGLOB | Gm.FORCEUNIX) is False),
     ])
+    from props import fringe
+    fringe.star_runs(ctx)
+    fringe.dot_newline(ctx)
     return ctx.finish(RULE)
 
 
